@@ -49,11 +49,11 @@ CFG = dict(
     rule=("one case per (source kind/variant, destination kind/variant) pair, one per (kind/variant) for the single-view algorithms, one "
           "per (image type pair, alignment pair); every shape of the tier runs inside each case. evaluations = arena bytes compared + "
           "functor arguments checked + equal_pixels verdicts; distinct_nontrivial = distinct (variant pair, shape, algorithm) "
-          "combinations, distinct by construction of the enumeration (the second random-content pass of the thorough tier and the native "
+          "combinations, distinct by construction of the enumeration (the extra random-content passes of the native build and the native "
           "re-run are not counted again); empty shapes are included: they check that nothing is touched."),
     exhaustive={"quick": True, "thorough": True},
     exhaustive_domain={"quick": "all ordered kind pairs of each family x all variant pairs x shapes w,h in 0..6 + (17,5),(5,17),(33,2); single differing pixel at every position; pixel contents and the differing bit are seeded",
-                       "thorough": "the same pairs x shapes w,h in 0..9 + (17,5),(5,17),(33,2),(64,3),(3,40),(31,9), two content passes, ASan build + native -O2 build"},
+                       "thorough": "the same pairs x shapes w,h in 0..9 + (17,5),(5,17),(33,2),(64,3),(3,40),(31,9), ASan build (one content pass) + native -O2 build (three content passes)"},
     types=["rgb8: interleaved ptr (+const), x-step, transposed; planar (+const), planar x-step, planar transposed; bgr8 ptr, bgr8 step; color_converted_view<rgb8>(gray16 ptr | rgb16 planar)",
            "rgb16: interleaved, planar (+const), planar step", "rgb32f: interleaved, planar",
            "rgb565: packed_pixel<uint16> ptr (+const), step; bit_aligned rgb565, bgr565, transposed",
@@ -70,7 +70,7 @@ CFG = dict(
     tus=[tu(name("asan", f, p), SRC, "asan", extra=NONULL + ["-O0"] + flags(f, p), deps=DEPS) for f, p in PARTS]
         + [tu(name("native", f, p), SRC, "native", extra=flags(f, p), deps=DEPS, tiers=("thorough",)) for f, p in PARTS],
     runs=[run(name("asan", f, p), shards={"quick": 2, "thorough": 4}, min_cases={"quick": CASES[(f, p)], "thorough": CASES[(f, p)]}) for f, p in PARTS]
-        + [run(name("native", f, p), shards=1, min_cases={"quick": CASES[(f, p)], "thorough": CASES[(f, p)]}, secondary=True, tiers=("thorough",)) for f, p in PARTS],
+        + [run(name("native", f, p), shards=2, args={"thorough": ["--rounds", "3"]}, min_cases={"quick": CASES[(f, p)], "thorough": CASES[(f, p)]}, secondary=True, tiers=("thorough",)) for f, p in PARTS],
     require_obs=[
         # interleaved pointer fast paths: one memmove / one per row; const and mutable std::copy overloads
         "copy.rgb8-ptr>rgb8-ptr.s1d1", "copy.rgb8-ptr>rgb8-ptr.s0d0", "copy.rgb8-ptr>rgb8-ptr.s1d0", "copy.rgb8-ptr>rgb8-ptr.s0d1",
